@@ -153,6 +153,8 @@ def std_validate(chk, cases, tier):
             continue   # plain text: trivially accepted by both; a 2% sample is still compiled
         if lit.startswith("{}") and lit.endswith("{:?}") and len(lit) > 8:
             continue   # the "second" context repeats the bare derivation between two fixed placeholders
+        if tier == "thorough" and len(c["chars"]) > 4 and vlib.seeded_pick(lit, 0, 32) != 0:
+            continue   # rustc cannot compile millions of probes: every string <= 4 plus a fixed 1/32 of the longer ones
         todo.append((lit, c))
     todo.sort(key=lambda t: t[0])
     h = hashlib.sha1()
@@ -171,19 +173,22 @@ def std_validate(chk, cases, tier):
         # the spec or the case set changed since the last validation: redo it (below)
         pass
     log(f"[C03] validating Std* against rustc on {len(todo)} literals")
-    nshards = 12
+    par = 12                                     # concurrent rustc processes (one probe crate each)
+    nshards = par * max(1, -(-len(todo) // (par * 9000)))     # <= ~9000 probes per crate keeps rustc below ~3 GB
     shards = [todo[i::nshards] for i in range(nshards)]
 
     def run(i):
         snips = [(lit, std_probe_snippet(lit)) for lit, _ in shards[i]]
-        per, r = vlib.verdict_crate(f"c03_std_{i}", snips, prelude=PRELUDE_P, features=("display",),
-                                    target_dir=os.path.join(vlib.BUILD, f"target-std-{i}"), jobs=2)
+        per, r = vlib.verdict_crate(f"c03_std_{i % par}", snips, prelude=PRELUDE_P, features=("display",),
+                                    target_dir=os.path.join(vlib.BUILD, f"target-std-{i % par}"), jobs=2)
         return per, r
 
     disagreements = []
     oos = 0
-    with cf.ThreadPoolExecutor(max_workers=nshards) as ex:
-        results = list(ex.map(run, range(nshards)))
+    results = []
+    for rnd in range(nshards // par):            # rounds of `par` crates; slot i % par is reused between rounds
+        with cf.ThreadPoolExecutor(max_workers=par) as ex:
+            results += list(ex.map(run, range(rnd * par, (rnd + 1) * par)))
     for i, (per, r) in enumerate(results):
         for lit, c in shards[i]:
             errs = [d for d in per[lit] if d["level"] == "error" and not d["code"]]
